@@ -1,0 +1,224 @@
+// Verification hook, compiled only with `--cfg cadence_verif`.
+//
+// Pass-through replacements for `std::sync::atomic::AtomicUsize` and
+// `std::cell::UnsafeCell` that report every operation (with the memory
+// `Ordering` written in the source) to a tracer installed for the current
+// thread. `Tracer::before` may block: that is how a test harness owns the
+// schedule. With no tracer installed these types simply forward to std.
+
+use std::cell::RefCell;
+use std::fmt;
+use std::sync::atomic::Ordering;
+
+/// One traced operation.
+#[derive(Clone, Copy, Debug, PartialEq, Eq)]
+pub enum Access {
+    Load {
+        order: Ordering,
+    },
+    Store {
+        value: usize,
+        order: Ordering,
+    },
+    CompareExchange {
+        current: usize,
+        new: usize,
+        success: Ordering,
+        failure: Ordering,
+        weak: bool,
+    },
+    /// swap / fetch_add / fetch_sub / fetch_or / fetch_and
+    Rmw {
+        name: &'static str,
+        operand: usize,
+        order: Ordering,
+    },
+    /// `UnsafeCell::get`: a raw pointer to `size` bytes at `Event::addr` is handed out
+    CellGet {
+        size: usize,
+    },
+    /// exclusive access through `&mut self` / by value (get_mut, into_inner)
+    Exclusive,
+}
+
+#[derive(Clone, Copy, Debug, PartialEq, Eq)]
+pub struct Event {
+    /// address of the atomic / cell
+    pub addr: usize,
+    pub access: Access,
+    /// filled in for `Tracer::after`: previous value for loads and RMWs,
+    /// `Ok(previous)` / `Err(actual)` for compare_exchange
+    pub result: Option<Result<usize, usize>>,
+}
+
+pub trait Tracer {
+    /// called before the operation is performed; may block
+    fn before(&self, ev: &Event);
+    /// called after the operation was performed, with its result
+    fn after(&self, ev: &Event);
+}
+
+thread_local! {
+    static TRACER: RefCell<Option<Box<dyn Tracer>>> = const { RefCell::new(None) };
+}
+
+/// Install (or remove) the tracer of the current thread, returning the previous one.
+pub fn install_tracer(t: Option<Box<dyn Tracer>>) -> Option<Box<dyn Tracer>> {
+    TRACER.with(|cell| std::mem::replace(&mut *cell.borrow_mut(), t))
+}
+
+fn before(ev: &Event) {
+    TRACER.with(|cell| {
+        if let Ok(guard) = cell.try_borrow() {
+            if let Some(t) = guard.as_ref() {
+                t.before(ev);
+            }
+        }
+    });
+}
+
+fn after(ev: &Event) {
+    TRACER.with(|cell| {
+        if let Ok(guard) = cell.try_borrow() {
+            if let Some(t) = guard.as_ref() {
+                t.after(ev);
+            }
+        }
+    });
+}
+
+#[derive(Default)]
+pub struct AtomicUsize(std::sync::atomic::AtomicUsize);
+
+impl fmt::Debug for AtomicUsize {
+    fn fmt(&self, f: &mut fmt::Formatter<'_>) -> fmt::Result {
+        self.0.fmt(f)
+    }
+}
+
+impl AtomicUsize {
+    pub const fn new(v: usize) -> Self {
+        AtomicUsize(std::sync::atomic::AtomicUsize::new(v))
+    }
+
+    fn addr(&self) -> usize {
+        &self.0 as *const _ as usize
+    }
+
+    pub fn load(&self, order: Ordering) -> usize {
+        let mut ev = Event { addr: self.addr(), access: Access::Load { order }, result: None };
+        before(&ev);
+        let v = self.0.load(order);
+        ev.result = Some(Ok(v));
+        after(&ev);
+        v
+    }
+
+    pub fn store(&self, value: usize, order: Ordering) {
+        let mut ev = Event { addr: self.addr(), access: Access::Store { value, order }, result: None };
+        before(&ev);
+        self.0.store(value, order);
+        ev.result = Some(Ok(value));
+        after(&ev);
+    }
+
+    pub fn compare_exchange(&self, current: usize, new: usize, success: Ordering, failure: Ordering) -> Result<usize, usize> {
+        let access = Access::CompareExchange { current, new, success, failure, weak: false };
+        let mut ev = Event { addr: self.addr(), access, result: None };
+        before(&ev);
+        let r = self.0.compare_exchange(current, new, success, failure);
+        ev.result = Some(r);
+        after(&ev);
+        r
+    }
+
+    pub fn compare_exchange_weak(&self, current: usize, new: usize, success: Ordering, failure: Ordering) -> Result<usize, usize> {
+        let access = Access::CompareExchange { current, new, success, failure, weak: true };
+        let mut ev = Event { addr: self.addr(), access, result: None };
+        before(&ev);
+        // never fails spuriously under the harness (one thread runs at a time)
+        let r = self.0.compare_exchange(current, new, success, failure);
+        ev.result = Some(r);
+        after(&ev);
+        r
+    }
+
+    fn rmw(&self, name: &'static str, operand: usize, order: Ordering, f: impl FnOnce(&std::sync::atomic::AtomicUsize) -> usize) -> usize {
+        let mut ev = Event { addr: self.addr(), access: Access::Rmw { name, operand, order }, result: None };
+        before(&ev);
+        let v = f(&self.0);
+        ev.result = Some(Ok(v));
+        after(&ev);
+        v
+    }
+
+    pub fn swap(&self, value: usize, order: Ordering) -> usize {
+        self.rmw("swap", value, order, |a| a.swap(value, order))
+    }
+
+    pub fn fetch_add(&self, value: usize, order: Ordering) -> usize {
+        self.rmw("fetch_add", value, order, |a| a.fetch_add(value, order))
+    }
+
+    pub fn fetch_sub(&self, value: usize, order: Ordering) -> usize {
+        self.rmw("fetch_sub", value, order, |a| a.fetch_sub(value, order))
+    }
+
+    pub fn fetch_or(&self, value: usize, order: Ordering) -> usize {
+        self.rmw("fetch_or", value, order, |a| a.fetch_or(value, order))
+    }
+
+    pub fn fetch_and(&self, value: usize, order: Ordering) -> usize {
+        self.rmw("fetch_and", value, order, |a| a.fetch_and(value, order))
+    }
+
+    pub fn fetch_max(&self, value: usize, order: Ordering) -> usize {
+        self.rmw("fetch_max", value, order, |a| a.fetch_max(value, order))
+    }
+
+    pub fn get_mut(&mut self) -> &mut usize {
+        let ev = Event { addr: self.addr(), access: Access::Exclusive, result: None };
+        before(&ev);
+        after(&ev);
+        self.0.get_mut()
+    }
+
+    pub fn into_inner(self) -> usize {
+        self.0.into_inner()
+    }
+}
+
+#[derive(Default)]
+pub struct UnsafeCell<T>(std::cell::UnsafeCell<T>);
+
+impl<T> fmt::Debug for UnsafeCell<T> {
+    fn fmt(&self, f: &mut fmt::Formatter<'_>) -> fmt::Result {
+        f.write_str("UnsafeCell { .. }")
+    }
+}
+
+impl<T> UnsafeCell<T> {
+    pub const fn new(v: T) -> Self {
+        UnsafeCell(std::cell::UnsafeCell::new(v))
+    }
+
+    pub fn get(&self) -> *mut T {
+        let ptr = self.0.get();
+        let mut ev = Event { addr: ptr as usize, access: Access::CellGet { size: std::mem::size_of::<T>() }, result: None };
+        before(&ev);
+        ev.result = Some(Ok(0));
+        after(&ev);
+        ptr
+    }
+
+    pub fn get_mut(&mut self) -> &mut T {
+        let ev = Event { addr: self.0.get() as usize, access: Access::Exclusive, result: None };
+        before(&ev);
+        after(&ev);
+        self.0.get_mut()
+    }
+
+    pub fn into_inner(self) -> T {
+        self.0.into_inner()
+    }
+}
